@@ -149,7 +149,7 @@ def liveOf (st : St) : Nat :=
     headers as they are (after the fix-c20 commits), and whether the standard prescribes it.  This is a table,
     not a model: value categories and element types are outside the value-level model (DESIGN §6). -/
 def typeFact : String → Option (Bool × Bool)
-  | "make_pair_unwraps_refwrap" => some (false, true)
+  | "make_pair_unwraps_refwrap" => some (true, true)
   | "make_tuple_unwraps_refwrap" => some (true, true)
   | "tuple_cat_value_types" => some (true, true)
   | "tuple_cat_keeps_ref" => some (false, true)
